@@ -2,8 +2,10 @@
 C06 — blocking-query contract: a change is never missed.
 
 Property theorems only. Model: CV.Store.Query (read paths: index, result, watch footprint, on top of the
-shared store model CV.Store.*) and CV.BlockingQuery (the loop of blockingquery.Query). Helper lemmas:
-CV/Proofs/StoreQueryIdx, StoreLadder, StoreQueryTbl, StoreQueryFoot, BlockingQuery.
+shared store model CV.Store.*) and CV.BlockingQuery (the loop of blockingquery.Query, with and without the
+sentinel errors). Helper lemmas: CV/Proofs/StoreQueryIdx, StoreLadder, StoreQueryTbl, StoreQueryFoot, StoreQueryKv,
+StoreQueryKeys, StoreQueryNode, StoreQueryDisc, StoreQuerySvc, StoreQueryLog, BlockingQuery (and, for the
+catalog table specifications, the C07 files StoreCatFrame / StoreCatInv / StoreCatApply).
 
 The statement of the property, per query `q` and per committed command `c` at Raft index `i` (larger
 than every index in the state, `IdxInv`):
@@ -13,7 +15,9 @@ It is proved in full for the table-indexed read paths (`Query.tableLevel`) and f
 every read path that is not answered through the watch-set optimisation. For the read paths with their
 own index rows (KVSList, the per-service and per-node paths) the full statement is FALSE for the code as
 it is — seven recorded findings, each with a `_counterexample` theorem below — and a `_partial`
-theorem states what holds.
+theorem states what holds. Round 2 (last sections): under decidable hypotheses on the log that exclude
+exactly those mechanisms (`LogDisc`), the per-node and per-service read paths satisfy the full contract,
+including the watch-set optimisation of CheckServiceNodes, end to end through the blocking loop.
 -/
 import CV.Proofs.StoreQueryTbl
 import CV.Proofs.StoreQueryFoot
@@ -21,6 +25,7 @@ import CV.Proofs.BlockingQuery
 import CV.Proofs.StoreQueryCex
 import CV.Proofs.StoreQueryKv
 import CV.Proofs.StoreQueryDefect
+import CV.Proofs.StoreQueryLog
 namespace CV.Store
 open CV
 
@@ -542,5 +547,394 @@ theorem table_query_blocking_sound (q : Query) (hq : q.tableLevel = true) (s0 : 
     · intro j k _ _ _ hch
       exact change_fires_watch q _ _ (hplain _) hch
   exact blocking_loop_sound t a start hc h1 h2
+
+/-! ### round 2 — the per-node and per-service read paths: the POSITIVE contract under the naming discipline
+
+The counterexamples above are the ONLY ways these read paths break the contract. Hypotheses, all decidable
+on the command (and, further down, on the whole log):
+  * node names are NUL-free when lower-cased (`NF`), and the queried node name has at least two bytes
+    (finding `catalog:node-services-short-name`);
+  * `D : Disc` fixes the service name of every instance key (node, id) and the service id of every check key
+    (node, id): no instance is renamed in place (`catalog:service-renamed-in-place`), no check is rebound to
+    another service (`catalog:check-rebound`). -/
+
+/-- index invariant, and every node name stored in the catalog is NUL-free when lower-cased -/
+def NodeInv (m : Nat) (s : State) : Prop :=
+  IdxInv m s ∧ (∀ v ∈ s.svcs, NF v.node) ∧ (∀ nd ∈ s.nodes, NF nd.name)
+
+/-- every node name the command mentions is NUL-free when lower-cased -/
+def NodesNF (c : Cmd) : Prop := ∀ a ∈ c.nodes, NF a
+
+instance (c : Cmd) : Decidable (NodesNF c) := by unfold NodesNF; infer_instance
+
+theorem nodesNF_ok {c : Cmd} (h : NodesNF c) : c.ok nodeGuard :=
+  ⟨fun _ _ => trivial, fun _ _ => trivial, h, fun _ _ => trivial⟩
+
+theorem nodeStep_start {n : String} {s : State} {m i : Nat} (hI : NodeInv m s) (hi : m ≤ i) : NodeStep n i s s :=
+  ⟨hI.1.mono hi, hI.2.1, hI.2.2, Or.inl ⟨rfl, rfl⟩⟩
+
+theorem len_xx : 2 ≤ "xx".length := by decide
+
+/-- one command keeps the invariant -/
+theorem node_inv_step (s : State) (m i : Nat) (c : Cmd) (h : NodeInv m s) (hi : m ≤ i) (hc : NodesNF c) :
+    NodeInv i (apply s i c).1 := by
+  have L := node_apply (n := "xx") len_xx c (nodesNF_ok hc) (nodeStep_start h hi)
+  exact ⟨L.le, L.nf_svc, L.nf_node⟩
+
+theorem node_inv_empty : NodeInv 0 State.empty :=
+  ⟨idx_inv_empty, by intro v hv; simp [State.empty] at hv, by intro v hv; simp [State.empty] at hv⟩
+
+/-- PARTIAL (full statement refuted by `node_services_short_name_counterexample`): NodeServices(n) for a node
+    name of at least two bytes. If the result changes — the node row, or the set of service instances on the
+    node — the new index is exactly the command's index, strictly above the old one. Every command type. -/
+theorem node_services_change_bumps_index_partial (n : String) (hn : 2 ≤ n.length) (s : State) (m i : Nat) (c : Cmd)
+    (hI : NodeInv m s) (hi : m < i) (hc : NodesNF c)
+    (hch : ((Query.nodeServices n).run (apply s i c).1).2 ≠ ((Query.nodeServices n).run s).2) :
+    ((Query.nodeServices n).run (apply s i c).1).1 = i ∧ ((Query.nodeServices n).run s).1 < i := by
+  have L := node_apply hn c (nodesNF_ok hc) (nodeStep_start (n := n) hI (Nat.le_of_lt hi))
+  rw [nodeServices_idx, nodeServices_idx]
+  have hold := nsIdx_le hI.1 n
+  rcases L.view with ⟨hv, -⟩ | hf
+  · exact absurd (nodeServices_res_of_view hv) hch
+  · exact ⟨hf, by omega⟩
+
+/-- … and the same for NodeServiceList(n), whose result additionally depends on whether its index is 0. -/
+theorem node_service_list_change_bumps_index_partial (n : String) (hn : 2 ≤ n.length) (s : State) (m i : Nat) (c : Cmd)
+    (hI : NodeInv m s) (hi : m < i) (hc : NodesNF c)
+    (hch : ((Query.nodeServiceList n).run (apply s i c).1).2 ≠ ((Query.nodeServiceList n).run s).2) :
+    ((Query.nodeServiceList n).run (apply s i c).1).1 = i ∧ ((Query.nodeServiceList n).run s).1 < i := by
+  have L := node_apply hn c (nodesNF_ok hc) (nodeStep_start (n := n) hI (Nat.le_of_lt hi))
+  rw [nodeServiceList_idx, nodeServiceList_idx]
+  have hold := nsIdx_le hI.1 n
+  rcases L.view with ⟨hv, hx⟩ | hf
+  · exact absurd (nodeServiceList_res_of_view hv hx) hch
+  · exact ⟨hf, by omega⟩
+
+/-- PARTIAL index monotonicity of NodeServices / NodeServiceList: no decrease across ANY command (a tombstone reap
+    does not touch the catalog index rows). -/
+theorem node_services_index_monotone_partial (n : String) (hn : 2 ≤ n.length) (s : State) (m i : Nat) (c : Cmd)
+    (hI : NodeInv m s) (hi : m ≤ i) (hc : NodesNF c) :
+    ((Query.nodeServices n).run s).1 ≤ ((Query.nodeServices n).run (apply s i c).1).1 ∧
+    ((Query.nodeServiceList n).run s).1 ≤ ((Query.nodeServiceList n).run (apply s i c).1).1 := by
+  have L := node_apply hn c (nodesNF_ok hc) (nodeStep_start (n := n) hI hi)
+  rw [nodeServices_idx, nodeServices_idx, nodeServiceList_idx, nodeServiceList_idx]
+  have hold := nsIdx_le hI.1 n
+  rcases L.view with ⟨-, hx⟩ | hf
+  · rw [hx]; exact ⟨Nat.le_refl _, Nat.le_refl _⟩
+  · rw [hf]; omega
+
+/-- index invariant + the stored catalog rows follow the discipline `D` -/
+def SvcInv (D : Disc) (m : Nat) (s : State) : Prop := IdxInv m s ∧ CatDisc D s
+
+/-- one disciplined command keeps the invariant -/
+theorem svc_inv_step (D : Disc) (s : State) (m i : Nat) (c : Cmd) (h : SvcInv D m s) (hi : m ≤ i) (hc : c.ok D.guard) :
+    SvcInv D i (apply s i c).1 :=
+  ⟨idx_inv_step s m i c h.1 hi, disc_apply c hc h.2⟩
+
+theorem svc_inv_empty (D : Disc) (m : Nat) : SvcInv D m State.empty := ⟨idxLe_nil m, catDisc_empty D⟩
+
+theorem svc_inv_reachable (D : Disc) (s : State) (m : Nat) (log : Log) (h : SvcInv D m s) (hw : WellIndexed m log)
+    (hG : ∀ ic ∈ log, ic.2.ok D.guard) : SvcInv D (lastIndex m log) (replay s log) := by
+  induction log generalizing s m with
+  | nil => exact h
+  | cons ic rest ih =>
+    obtain ⟨i, c⟩ := ic
+    exact ih (apply s i c).1 i (svc_inv_step D s m i c h (Nat.le_of_lt hw.1) (hG (i, c) List.mem_cons_self)) hw.2
+      (fun x hx => hG x (List.mem_cons_of_mem _ hx))
+
+theorem svcStep_start {D : Disc} {N : String} {s : State} {m i : Nat} (hI : SvcInv D m s) (hi : m ≤ i) :
+    SvcStep D N i s s := SvcStep.start (hI.1.mono hi) hI.2
+
+/-- PARTIAL (full statement refuted by `service_rename_counterexample`): ServiceNodes(N) under the discipline.
+    If the result changes — an instance named N appears, disappears or is rewritten, or the node row of one of
+    them changes — the new index is exactly the command's index, strictly above the old one. Every command
+    type: registration, deregistration (service, node, with the cascades), node rename by ID, transactions. -/
+theorem service_nodes_change_bumps_index_partial (D : Disc) (N : String) (s : State) (m i : Nat) (c : Cmd)
+    (hI : SvcInv D m s) (hi : m < i) (hc : c.ok D.guard)
+    (hch : ((Query.serviceNodes N).run (apply s i c).1).2 ≠ ((Query.serviceNodes N).run s).2) :
+    ((Query.serviceNodes N).run (apply s i c).1).1 = i ∧ ((Query.serviceNodes N).run s).1 < i := by
+  have L := svc_apply (N := N) c hc (svcStep_start hI (Nat.le_of_lt hi))
+  have hold : svcIdx s N false ≤ m := svcIdx_le hI.1 N false
+  show svcIdx _ N false = i ∧ svcIdx s N false < i
+  rcases L.view with ⟨hv, -⟩ | hf
+  · exact absurd (serviceNodes_res_of_view hv) hch
+  · exact ⟨svcFresh_idx hf false, by omega⟩
+
+/-- PARTIAL (full statement refuted by `check_rebound_leaves_previous_service_index` and the rename finding):
+    CheckServiceNodes(N) under the discipline. If the result changes — instances, their node rows, the
+    node-level checks of their nodes or their own checks (registered, updated, deleted, or flipped by a session
+    invalidation) — then the new index is exactly the command's index, strictly above the old one, AND the
+    WatchSet built before the write fires: also when it is the single `service.<N>` index row of the
+    watch-set optimisation. -/
+theorem check_service_nodes_change_bumps_index_partial (D : Disc) (N : String) (s : State) (m i : Nat) (c : Cmd)
+    (hI : SvcInv D m s) (hi : m < i) (hc : c.ok D.guard)
+    (hch : ((Query.csn N).run (apply s i c).1).2 ≠ ((Query.csn N).run s).2) :
+    ((Query.csn N).run (apply s i c).1).1 = i ∧ ((Query.csn N).run s).1 < i ∧
+    (Query.csn N).fired s (apply s i c).1 = true := by
+  have L := svc_apply (N := N) c hc (svcStep_start hI (Nat.le_of_lt hi))
+  have hold : svcIdx s N true ≤ m := svcIdx_le hI.1 N true
+  show svcIdx _ N true = i ∧ svcIdx s N true < i ∧ _
+  rcases L.view with ⟨hv, -⟩ | hf
+  · exact absurd (csn_res_of_view hv) hch
+  · refine ⟨svcFresh_idx hf true, by omega, ?_⟩
+    by_cases hp : (Query.csn N).plainWatch s
+    · exact change_fires_watch _ _ _ hp hch
+    · -- the optimisation: the only watched channel is the `service.<N>` index row
+      simp only [Query.plainWatch, not_or] at hp
+      obtain ⟨he, hr⟩ := hp
+      obtain ⟨v, hv⟩ := Option.ne_none_iff_exists'.mp hr
+      have hvm : v ≤ m := hI.1 _ _ hv
+      have hne : idxGet s.index (svcKey N) ≠ idxGet (apply s i c).1.index (svcKey N) := by
+        rw [hv]
+        rcases hf with ⟨-, h2⟩ | ⟨-, -, h2⟩
+        · rw [h2]; intro e; simp at e; omega
+        · rw [h2]; simp
+      have he' : (svcsNamed s N).isEmpty = false := by simpa using he
+      simp [Query.fired, Query.watch, he', hv, WatchItem.changed]
+      rw [hv] at hne; exact hne
+
+/-- PARTIAL index monotonicity of ServiceNodes / CheckServiceNodes: no decrease across ANY disciplined command. -/
+theorem service_index_monotone_partial (D : Disc) (N : String) (s : State) (m i : Nat) (c : Cmd)
+    (hI : SvcInv D m s) (hi : m ≤ i) (hc : c.ok D.guard) :
+    ((Query.serviceNodes N).run s).1 ≤ ((Query.serviceNodes N).run (apply s i c).1).1 ∧
+    ((Query.csn N).run s).1 ≤ ((Query.csn N).run (apply s i c).1).1 := by
+  have L := svc_apply (N := N) c hc (svcStep_start hI hi)
+  show svcIdx s N false ≤ svcIdx _ N false ∧ svcIdx s N true ≤ svcIdx _ N true
+  have T := tbl_apply s i c
+  rcases L.view with ⟨hv, hr⟩ | hf
+  · exact ⟨svcIdx_mono T.ops (hI.1.mono hi) (view_isEmpty hv) hr false,
+      svcIdx_mono T.ops (hI.1.mono hi) (view_isEmpty hv) hr true⟩
+  · rw [svcFresh_idx hf false, svcFresh_idx hf true]
+    have := svcIdx_le hI.1 N false; have := svcIdx_le hI.1 N true
+    omega
+
+/-- THE OPTIMISED WATCH, ANY NUMBER OF WRITES LATER. Along a disciplined history: either what
+    CheckServiceNodes(N) shows and the `service.<N>` index row are both exactly as before, or the row is gone or
+    holds an index above everything the start state knew. -/
+theorem service_row_moves_with_view (D : Disc) (N : String) (s : State) (m : Nat) (log : Log)
+    (hI : SvcInv D m s) (hw : WellIndexed m log) (hG : ∀ ic ∈ log, ic.2.ok D.guard) :
+    (csnView (replay s log) N = csnView s N ∧
+      idxGet (replay s log).index (svcKey N) = idxGet s.index (svcKey N)) ∨
+    idxGet (replay s log).index (svcKey N) = none ∨
+    ∃ w, idxGet (replay s log).index (svcKey N) = some w ∧ m < w := by
+  induction log generalizing s m with
+  | nil => exact Or.inl ⟨rfl, rfl⟩
+  | cons ic rest ih =>
+    obtain ⟨i, c⟩ := ic
+    have hc := hG (i, c) List.mem_cons_self
+    have L := svc_apply (N := N) c hc (svcStep_start hI (Nat.le_of_lt hw.1))
+    have hI1 := svc_inv_step D s m i c hI (Nat.le_of_lt hw.1) hc
+    have IH := ih (apply s i c).1 i hI1 hw.2 (fun x hx => hG x (List.mem_cons_of_mem _ hx))
+    show _ ∨ idxGet (replay (apply s i c).1 rest).index _ = none ∨ ∃ w, idxGet (replay (apply s i c).1 rest).index _ = some w ∧ _
+    rcases IH with ⟨v1, r1⟩ | hn | ⟨w, hw1, hlt⟩
+    · rcases L.view with ⟨v0, r0⟩ | ⟨-, h2⟩ | ⟨-, -, h2⟩
+      · exact Or.inl ⟨v1.trans v0, r1.trans r0⟩
+      · exact Or.inr (Or.inr ⟨i, r1.trans h2, hw.1⟩)
+      · exact Or.inr (Or.inl (r1.trans h2))
+    · exact Or.inr (Or.inl hn)
+    · exact Or.inr (Or.inr ⟨w, hw1, by have := hw.1; omega⟩)
+
+/-! ### … end to end, and on the log -/
+
+theorem wellIndexed_take (m : Nat) (log : Log) (hw : WellIndexed m log) (k : Nat) : WellIndexed m (log.take k) := by
+  induction log generalizing m k with
+  | nil => simp [WellIndexed]
+  | cons ic rest ih =>
+    obtain ⟨i, c⟩ := ic
+    cases k with
+    | zero => simp [WellIndexed]
+    | succ k => exact ⟨hw.1, ih i hw.2 k⟩
+
+theorem wellIndexed_drop (m : Nat) (log : Log) (hw : WellIndexed m log) (j : Nat) :
+    WellIndexed (lastIndex m (log.take j)) (log.drop j) := by
+  induction log generalizing m j with
+  | nil => simp [WellIndexed, lastIndex]
+  | cons ic rest ih =>
+    obtain ⟨i, c⟩ := ic
+    cases j with
+    | zero => simpa [lastIndex] using hw
+    | succ j => simpa [lastIndex] using ih i hw.2 j
+
+theorem stateAt_split (s0 : State) (log : Log) {j k : Nat} (hjk : j ≤ k) :
+    stateAt s0 log k = replay (stateAt s0 log j) ((log.take k).drop j) := by
+  unfold stateAt replay
+  rw [← List.foldl_append]
+  have : log.take j = (log.take k).take j := by rw [List.take_take, Nat.min_eq_left hjk]
+  rw [this, List.take_append_drop]
+
+theorem svc_inv_stateAt (D : Disc) (s0 : State) (m : Nat) (log : Log) (h : SvcInv D m s0) (hw : WellIndexed m log)
+    (hG : ∀ ic ∈ log, ic.2.ok D.guard) (k : Nat) : SvcInv D (lastIndex m (log.take k)) (stateAt s0 log k) :=
+  svc_inv_reachable D s0 m _ h (wellIndexed_take m log hw k) (logDisc_mem_take hG k)
+
+/-- the read paths of this section (NodeServiceList is not among them: its result also depends on whether its
+    index is 0, which no channel of its WatchSet reports) -/
+def Query.disciplined : Query → Prop
+  | .nodeServices n => 2 ≤ n.length
+  | .serviceNodes _ | .csn _ => True
+  | _ => False
+
+/-- CHANGE ⇒ WATCH for CheckServiceNodes INCLUDING the watch-set optimisation, between any two states of a
+    disciplined history, however many writes apart. -/
+theorem check_service_nodes_change_fires_watch (D : Disc) (N : String) (s0 : State) (m : Nat) (log : Log)
+    (hI : SvcInv D m s0) (hw : WellIndexed m log) (hG : ∀ ic ∈ log, ic.2.ok D.guard) (j k : Nat) (hjk : j ≤ k)
+    (hch : ((Query.csn N).run (stateAt s0 log k)).2 ≠ ((Query.csn N).run (stateAt s0 log j)).2) :
+    (Query.csn N).fired (stateAt s0 log j) (stateAt s0 log k) = true := by
+  by_cases hp : (Query.csn N).plainWatch (stateAt s0 log j)
+  · exact change_fires_watch _ _ _ hp hch
+  · simp only [Query.plainWatch, not_or] at hp
+    obtain ⟨he, hr⟩ := hp
+    obtain ⟨v, hv⟩ := Option.ne_none_iff_exists'.mp hr
+    have hIj := svc_inv_stateAt D s0 m log hI hw hG j
+    have hvm : v ≤ lastIndex m (log.take j) := hIj.1 _ _ hv
+    have hwd : WellIndexed (lastIndex m (log.take j)) ((log.take k).drop j) := by
+      have := wellIndexed_drop m (log.take k) (wellIndexed_take m log hw k) j
+      rwa [List.take_take, Nat.min_eq_left hjk] at this
+    have hGd : ∀ ic ∈ (log.take k).drop j, ic.2.ok D.guard :=
+      fun ic hic => hG ic (List.mem_of_mem_take (List.mem_of_mem_drop hic))
+    have M := service_row_moves_with_view D N (stateAt s0 log j) _ _ hIj hwd hGd
+    rw [← stateAt_split s0 log hjk] at M
+    have hne : idxGet (stateAt s0 log j).index (svcKey N) ≠ idxGet (stateAt s0 log k).index (svcKey N) := by
+      rw [hv]
+      rcases M with ⟨hview, -⟩ | h2 | ⟨w, h2, hlt⟩
+      · exact absurd (csn_res_of_view hview) hch
+      · rw [h2]; simp
+      · rw [h2]; intro e; simp at e; omega
+    have he' : (svcsNamed (stateAt s0 log j) N).isEmpty = false := by simpa using he
+    simp [Query.fired, Query.watch, he', hv, WatchItem.changed]
+    rw [hv] at hne; exact hne
+
+/-- THE PROPERTY, END TO END, for NodeServices (node name ≥ 2 bytes), ServiceNodes and CheckServiceNodes: take any
+    store state whose catalog follows a discipline `D` (bound `m ≥ 1`), any well-indexed history of commands of
+    any type that follow `D`, any schedule of wake-ups. A client that was given the result of state `a` and
+    blocks on its index either gets an answer with a strictly larger index, or — if the request times out — NO
+    state of the history from `a` on had a different result: a change is never missed. -/
+theorem disciplined_query_blocking_sound (D : Disc) (q : Query) (hq : q.disciplined) (s0 : State) (m : Nat) (hm : 1 ≤ m)
+    (log : Log) (hI : SvcInv D m s0) (hw : WellIndexed m log) (hG : ∀ ic ∈ log, ic.2.ok D.guard)
+    (sched : Nat → Nat) (a start : Nat) (h1 : a ≤ start) (h2 : start ≤ log.length) :
+    let t := queryTrace q s0 log sched
+    match CV.BQ.run t (t.idx a) start with
+    | .returned r => t.idx a < t.idx r ∧ start ≤ r ∧ r ≤ log.length
+    | .timeout _ => ∀ k, a ≤ k → k ≤ log.length → t.res k = t.res a := by
+  intro t
+  have inv := svc_inv_stateAt D s0 m log hI hw hG
+  have ninv : ∀ k, NodeInv (lastIndex m (log.take k)) (stateAt s0 log k) :=
+    fun k => ⟨(inv k).1, (inv k).2.nf_svc, (inv k).2.nf_node⟩
+  have cok : ∀ k (hk : k < log.length), (log[k]).2.ok D.guard := fun k hk => hG _ (List.getElem_mem hk)
+  have hc : CV.BQ.Contract t a := by
+    refine ⟨?_, ?_, ?_⟩
+    · intro k _ hk
+      have hk' : k < log.length := hk
+      show reported _ ≤ reported _
+      rw [stateAt_succ s0 log k hk']
+      have hn := wellIndexed_next m log hw k hk'
+      apply reported_mono
+      cases q <;> simp only [Query.disciplined] at hq
+      · exact (service_index_monotone_partial D _ _ _ _ _ (inv k) (Nat.le_of_lt hn.1) (cok k hk')).1
+      · exact (node_services_index_monotone_partial _ hq _ _ _ _ (ninv k) (Nat.le_of_lt hn.1) (cok k hk').nodes).1
+      · exact (service_index_monotone_partial D _ _ _ _ _ (inv k) (Nat.le_of_lt hn.1) (cok k hk')).2
+    · intro k _ hk hch
+      have hk' : k < log.length := hk
+      show reported _ < reported _
+      have hn := wellIndexed_next m log hw k hk'
+      have hch' : (q.run (stateAt s0 log (k + 1))).2 ≠ (q.run (stateAt s0 log k)).2 := hch
+      rw [stateAt_succ s0 log k hk'] at hch' ⊢
+      have h2i : 2 ≤ (log[k]).1 := by omega
+      cases q <;> simp only [Query.disciplined] at hq
+      · have := service_nodes_change_bumps_index_partial D _ _ _ _ _ (inv k) hn.1 (cok k hk') hch'
+        rw [this.1]; exact reported_strict this.2 h2i
+      · have := node_services_change_bumps_index_partial _ hq _ _ _ _ (ninv k) hn.1 (cok k hk').nodes hch'
+        rw [this.1]; exact reported_strict this.2 h2i
+      · have := check_service_nodes_change_bumps_index_partial D _ _ _ _ _ (inv k) hn.1 (cok k hk') hch'
+        rw [this.1]; exact reported_strict this.2.1 h2i
+    · intro j k _ hjk _ hch
+      cases q <;> simp only [Query.disciplined] at hq
+      · exact change_fires_watch _ _ _ (by simp [Query.plainWatch]) hch
+      · exact change_fires_watch _ _ _ (by simp [Query.plainWatch]) hch
+      · exact check_service_nodes_change_fires_watch D _ s0 m log hI hw hG j k hjk hch
+  exact blocking_loop_sound t a start hc h1 h2
+
+/-- … and with the hypotheses on the LOG only: a history from the empty store that satisfies the decidable
+    predicate `LogDisc` (NUL-free node names, no instance key registered under two names, no check key bound to
+    two service ids). -/
+theorem disciplined_log_blocking_sound (q : Query) (hq : q.disciplined) (log : Log) (hd : LogDisc log)
+    (hw : WellIndexed 1 log) (sched : Nat → Nat) (a start : Nat) (h1 : a ≤ start) (h2 : start ≤ log.length) :
+    let t := queryTrace q State.empty log sched
+    match CV.BQ.run t (t.idx a) start with
+    | .returned r => t.idx a < t.idx r ∧ start ≤ r ∧ r ≤ log.length
+    | .timeout _ => ∀ k, a ≤ k → k ≤ log.length → t.res k = t.res a :=
+  disciplined_query_blocking_sound (Disc.ofLog log) q hq State.empty 1 (Nat.le_refl _) log
+    (svc_inv_empty _ 1) hw (logDisc_ok hd) sched a start h1 h2
+
+/-- `LogDisc` implies the per-state invariant in every state of the history (from the empty store) -/
+theorem log_disc_gives_state_invariant (log : Log) (hd : LogDisc log) (hw : WellIndexed 1 log) (k : Nat) :
+    SvcInv (Disc.ofLog log) (lastIndex 1 (log.take k)) (stateAt State.empty log k) :=
+  svc_inv_stateAt _ _ 1 log (svc_inv_empty _ 1) hw (logDisc_ok hd) k
+
+/-! ### non-vacuity of the discipline -/
+
+/-- register n1 / web1 (service "web") with check c1, flip the check to critical, deregister the service, then the node -/
+def discLog : Log :=
+  [(2, .register ⟨nodeN1, some ⟨"n1", "web1", "web", 80, 0, 0⟩, [⟨"n1", "c1", "passing", "web1", "", "", "", "", 0, 0⟩]⟩),
+   (3, .register ⟨nodeN1, some ⟨"n1", "web1", "web", 80, 0, 0⟩, [⟨"n1", "c1", "critical", "web1", "", "", "", "down", 0, 0⟩]⟩),
+   (4, .deregister "n1" "web1" ""),
+   (5, .deregister "n1" "" "")]
+
+theorem nf_iff (a : String) : NF a ↔ nulC ∉ ikey a := by unfold NF; rw [lc_toList]
+
+/-- the hypotheses are satisfiable: a history with a registration, a check update, a service and a node
+    deregistration is well-indexed and disciplined -/
+theorem discipline_nonvacuous : LogDisc discLog ∧ WellIndexed 1 discLog := by
+  refine ⟨⟨?_, ?_, ?_, ?_⟩, ?_⟩
+  · simp (config := {decide := true}) [discLog, logNodes, Cmd.nodes, nodeN1, nf_iff, ikey]
+  · simp (config := {decide := true}) [discLog, logChks, Cmd.chks, nodeN1, nf_iff, ikey]
+  · simp (config := {decide := true}) [discLog, logSvcs, Cmd.svcs, nodeN1, Functional]
+  · simp (config := {decide := true}) [discLog, logChks, Cmd.chks, nodeN1, Functional]
+  · simp [discLog, WellIndexed]
+
+/-- … and they exclude exactly the recorded mechanism: the history of `service_rename_counterexample`
+    (instance n1/web re-registered under the name "db") is rejected -/
+theorem discipline_rejects_rename : ¬ LogDisc [(10, regWeb), (12, regWebAsDb)] := by
+  intro h
+  have := h.noRename ("n1", "web", "web") (by simp [logSvcs, Cmd.svcs, regWeb, regWebAsDb, nodeN1])
+    ("n1", "web", "db") (by simp [logSvcs, Cmd.svcs, regWeb, regWebAsDb, nodeN1]) rfl
+  exact web_ne_db this.symm
+
+/-- the premise "the result changes" is satisfiable under the discipline, and the theorem then pins the index:
+    registering the first instance of "web" at index 10 makes ServiceNodes("web") report exactly 10 -/
+theorem discipline_first_instance :
+    ((Query.serviceNodes "web").run (apply State.empty 10 regWeb).1).1 = 10 := by
+  have hd : LogDisc [(10, regWeb)] := by
+    refine ⟨?_, ?_, ?_, ?_⟩
+    · simp (config := {decide := true}) [logNodes, Cmd.nodes, regWeb, nodeN1, nf_iff, ikey]
+    · simp [logChks, Cmd.chks, regWeb]
+    · simp (config := {decide := true}) [logSvcs, Cmd.svcs, regWeb, nodeN1, Functional]
+    · simp [logChks, Cmd.chks, regWeb, Functional]
+  have hch : ((Query.serviceNodes "web").run (apply State.empty 10 regWeb).1).2 ≠
+      ((Query.serviceNodes "web").run State.empty).2 := by
+    rw [wRename_reached]
+    simp (config := {decide := true}) [Query.run, svcsNamed, wRename, State.empty]
+  exact (service_nodes_change_bumps_index_partial (Disc.ofLog [(10, regWeb)]) "web" State.empty 1 10 regWeb
+    (svc_inv_empty _ 1) (by decide) (logDisc_ok hd (10, regWeb) (by simp)) hch).1
+
+/-! ### the sentinel errors of `blockingquery.Query` -/
+
+open CV.BQ in
+/-- `ErrNotFound` / `ErrNotChanged` raise the index the loop blocks on to the one just reported, so the loop may
+    sleep through index movement. If the query function uses them as its doc comment demands (`FlagsSound`: two
+    "not found" answers mean the same result; "not changed" means the result of the previous evaluation), no
+    wake-up for a change that is still there is lost: a request that times out holds, from its last evaluation
+    `e` on, the result the client already has. (A change that was undone again before the loop re-evaluated is
+    not reported — by design: "query result has not changed".) -/
+theorem blocking_loop_sentinels_sound {ρ : Type} (t : Trace ρ) (f : Flags) (a start : Nat) (h : Contract t a)
+    (hf : FlagsSound t f a) (h1 : a ≤ start) (h2 : start ≤ t.last) :
+    match runF t f (t.idx a) start with
+    | .returned r => t.idx a < t.idx r ∧ start ≤ r ∧ r ≤ t.last
+    | .timeout e => t.res e = t.res a ∧ ∀ k, e ≤ k → k ≤ t.last → t.res k = t.res a := by
+  have inv0 : LoopInv t f a ⟨t.idx a, false, none⟩ start :=
+    ⟨a, Nat.le_refl _, h1, rfl, rfl, by intro j hj; simp at hj, by intro hs; simp at hs⟩
+  unfold runF
+  split
+  · next r hr => exact loopF_returned h hf _ _ _ _ h1 h2 inv0 hr
+  · next e he => exact loopF_timeout h hf _ _ _ _ h1 h2 (by omega) inv0 he
 
 end CV.Store
